@@ -411,14 +411,16 @@ func dom(prefix string, n int, withEmpty bool) []string {
 func (h *harness) makeSchema(mode string) {
 	g := h.g
 	nk := g.Range(2, 8)
-	fam := g.Pick(4, 2, 3, 1)
+	fam := g.Pick(4, 2, 3, 1, 1)
 	switch mode {
 	case "C08":
-		fam = 2
+		fam = g.Pick(0, 0, 3, 0, 1)
 	case "C07":
-		fam = g.Pick(3, 3, 0, 1)
+		fam = g.Pick(3, 3, 0, 1, 0)
 	case "C06":
-		fam = g.Pick(3, 1, 3, 1)
+		fam = g.Pick(3, 1, 3, 1, 1)
+	case "C03":
+		fam = g.Pick(4, 2, 3, 1, 2)
 	}
 	sm := &schemaModel{tables: map[string]*tblDef{}}
 	add := func(t *tblDef) {
@@ -443,19 +445,45 @@ func (h *harness) makeSchema(mode string) {
 			Idx: []idxDef{{Mode: 'k', Cols: []int{}}},
 			Dom: [][]string{dom("x", 3, true)}})
 	case 2:
-		h.family = "C"
 		fkMode := []int{fkBlock, fkCascade, fkCascadeUpdate}[g.Choose(3)]
 		np := (nk + 1) / 2
 		if np < 2 {
 			np = 2
 		}
-		add(&tblDef{Name: "p", Cols: []string{"k", "x", "tok"},
-			Idx: []idxDef{{Mode: 'k', Cols: []int{0}}, {Mode: 'i', Cols: []int{1}}},
-			Dom: [][]string{dom("k", np, false), dom("x", 2, true)}})
-		add(&tblDef{Name: "c", Cols: []string{"ck", "pk", "tok"},
-			Idx: []idxDef{{Mode: 'k', Cols: []int{0}}, {Mode: 'i', Cols: []int{1}, FkTable: "p", FkCols: []int{0}, FkMode: fkMode}},
-			Dom: [][]string{dom("c", nk, false), dom("k", np, true)}})
-		h.family = "C/" + modeName(fkMode)
+		if g.Coin(1, 3) {
+			// composite foreign key whose values contain zero bytes and empty fields
+			zdom := func(prefix string, n int) []string {
+				d := []string{""}
+				for i := 0; i < n; i++ {
+					d = append(d, val(fmt.Sprintf("%s\x00%d", prefix, i)))
+				}
+				d = append(d, val("\x00"), val(prefix+"\x00\x00"))
+				return d
+			}
+			add(&tblDef{Name: "p", Cols: []string{"k1", "k2", "x", "tok"},
+				Idx: []idxDef{{Mode: 'k', Cols: []int{0, 1}}, {Mode: 'i', Cols: []int{2}}},
+				Dom: [][]string{zdom("a", 2), zdom("b", 2), dom("x", 2, true)}})
+			add(&tblDef{Name: "c", Cols: []string{"ck", "p1", "p2", "tok"},
+				Idx: []idxDef{{Mode: 'k', Cols: []int{0}}, {Mode: 'i', Cols: []int{1, 2}, FkTable: "p", FkCols: []int{0, 1}, FkMode: fkMode}},
+				Dom: [][]string{dom("c", nk, false), zdom("a", 2), zdom("b", 2)}})
+			h.family = "C2/" + modeName(fkMode)
+		} else {
+			add(&tblDef{Name: "p", Cols: []string{"k", "x", "tok"},
+				Idx: []idxDef{{Mode: 'k', Cols: []int{0}}, {Mode: 'i', Cols: []int{1}}},
+				Dom: [][]string{dom("k", np, false), dom("x", 2, true)}})
+			add(&tblDef{Name: "c", Cols: []string{"ck", "pk", "tok"},
+				Idx: []idxDef{{Mode: 'k', Cols: []int{0}}, {Mode: 'i', Cols: []int{1}, FkTable: "p", FkCols: []int{0}, FkMode: fkMode}},
+				Dom: [][]string{dom("c", nk, false), dom("k", np, true)}})
+			h.family = "C/" + modeName(fkMode)
+		}
+	case 4:
+		// a table that refers to itself (a tree); ids of different lengths
+		fkMode := []int{fkBlock, fkCascade, fkCascadeUpdate}[g.Choose(3)]
+		ids := []string{val("n1"), val("n22"), val("n333"), val("n4444"), val("n55555")}[:g.Range(3, 5)]
+		add(&tblDef{Name: "tree", Cols: []string{"id", "parent", "tok"},
+			Idx: []idxDef{{Mode: 'k', Cols: []int{0}}, {Mode: 'i', Cols: []int{1}, FkTable: "tree", FkCols: []int{0}, FkMode: fkMode}},
+			Dom: [][]string{ids, append([]string{""}, ids...)}})
+		h.family = "E/" + modeName(fkMode)
 	default:
 		h.family = "D"
 		add(tA("t"))
@@ -682,7 +710,7 @@ func (h *harness) runTran(client int, tp tranPlan) {
 		_, t.endSeq = ut.VerifSeq()
 		h.ri.Count("txn.committed", 1)
 		h.claim(t)
-		if t.appliedAt < 0 && !netEmpty(h.versions[len(h.versions)-1].model, t.v.writes) {
+		if t.appliedAt < 0 && !netEmpty(h.versions[t.startVer].model, t.v.writes) {
 			// its writes must be visible by now
 			h.s.Inspect(h.observe)
 			if t.appliedAt < 0 && !s.Over() {
@@ -825,6 +853,9 @@ func (h *harness) doOp(t *txn, o op, last **lastRead) {
 				nw[c] = old[c]
 			}
 		}
+		if h.wouldCycle(t.v, o.table, old, nw) {
+			return // a cycle makes a cascading delete recurse until the write limit; not generated
+		}
 		want, note, dead := t.v.update(o.table, old, nw)
 		var newoff uint64
 		res := try(func() { newoff = ut.Update(nil, o.table, (*last).off, nw.rec()) })
@@ -871,6 +902,39 @@ func (h *harness) doOp(t *txn, o op, last **lastRead) {
 		h.compare(t, "delete", o.table, note, want, res, dead)
 		*last = nil
 	}
+}
+
+// wouldCycle reports whether updating old to nw in a self-referencing table would make a
+// row its own ancestor.
+func (h *harness) wouldCycle(v *view, table string, old, nw row) bool {
+	t := h.sm.tables[table]
+	for _, ix := range t.Idx {
+		if ix.FkTable != table || len(ix.Cols) != 1 {
+			continue
+		}
+		kc := ix.FkCols[0]
+		pc := ix.Cols[0]
+		// walk up from the new parent; reaching the row itself (old or new id) is a cycle
+		cur := nw[pc]
+		for steps := 0; cur != "" && steps < 100; steps++ {
+			if cur == nw[kc] || cur == old[kc] {
+				return true
+			}
+			next := ""
+			found := false
+			for _, r := range v.m[table] {
+				if r[kc] == cur {
+					next, found = r[pc], true
+					break
+				}
+			}
+			if !found {
+				break
+			}
+			cur = next
+		}
+	}
+	return false
 }
 
 // dynamic choices made during the run (they depend on what was read) come from their own stream
@@ -974,9 +1038,13 @@ func Run(s *simrt.Sim, mode string, ri *hkit.RunInfo) {
 	db19.MakeSuTran = func(ut *db19.UpdateTran) *core.SuTran { return core.NewSuTran(nil, true) }
 	core.Exit = func(code int) { panic(simrt.Fatal{Msg: fmt.Sprintf("core.Exit(%d)", code)}) }
 
+	thorough := os.Getenv("VERIF_TIER") == "thorough"
 	h.makeSchema(mode)
 	s.Tracef("knobs: maxage=%d persist=%v split=%d chunk=%d hashbits=%d", db19.MaxAge, persist, split, chunk, simmaphash.Bits.Load())
 	nclients := g.Range(1, 6)
+	if thorough {
+		nclients = g.Range(1, 8)
+	}
 	nread := g.Choose(3)
 	if mode == "C02" {
 		nread = g.Range(1, 3)
@@ -988,9 +1056,22 @@ func Run(s *simrt.Sim, mode string, ri *hkit.RunInfo) {
 	var plans [][]tranPlan
 	for c := 0; c < nclients; c++ {
 		nt := g.Range(1, 5)
+		if thorough {
+			nt = g.Range(1, 8)
+		}
 		var tps []tranPlan
 		for i := 0; i < nt; i++ {
 			tps = append(tps, h.genTran(mode))
+		}
+		// thorough tier: occasionally one transaction that runs into the write limit
+		if thorough && mode == "C03" && c == 0 && g.Coin(1, 100) {
+			var tp tranPlan
+			t0 := h.sm.tables[h.sm.order[0]]
+			for i := 0; i < 10050; i++ {
+				tp.ops = append(tp.ops, op{kind: opOutput, table: t0.Name, row: h.randRow(t0)})
+			}
+			tps = append(tps, tp)
+			h.ri.Count("probe.write-limit-transaction", 1)
 		}
 		plans = append(plans, tps)
 	}
